@@ -298,11 +298,22 @@ class Seq:
         return " | ".join(self.ops)
 
 
-def apply_op(model, sq, op, ctx=None):
-    """run one op on the model; record it unless the model hit an assertion site"""
+def apply_op(model, sq, op, ctx=None, force=False):
+    """run one op on the model; record it unless the model hit an assertion site.
+    force=True (witness sequences only): keep the op although the model meets an assertion
+    site -- from there on the model is not consulted and nothing is compared for this sequence"""
     if sq.ended:
         return None
+    if getattr(sq, "model_stopped", None) is not None:
+        sq.ops.append(op)
+        sq.exp.append(None)
+        return None
     lines = model.step(op)
+    if force and any(l.startswith("! assert") for l in lines):
+        sq.model_stopped = len(sq.ops)
+        sq.ops.append(op)
+        sq.exp.append(None)
+        return None
     if any(l.startswith("! assert") for l in lines):
         sq.skipped += 1
         if ctx is not None:
@@ -491,14 +502,14 @@ def gen_deep_sequence(ctx, model, r, idx, width):
     return sq
 
 
-def gen_corpus_sequence(ctx, model, line):
+def gen_corpus_sequence(ctx, model, line, force=False):
     nsurf = 1 + max([int(x) for x in re.findall(r"\bS (\d+)", line)] or [0])
     sq = Seq(nsurf, "corpus")
     import random
     sq.sg = Sigmas(nsurf, random.Random(nsurf))
     model.step("reset")
     for op in [o.strip() for o in line.split("|") if o.strip()]:
-        apply_op(model, sq, op, ctx)
+        apply_op(model, sq, op, ctx, force=force)
     return sq
 
 
@@ -517,6 +528,10 @@ def op_node(op):
     return ("J", "all" if t[1] == "and" else "any", [int(x) for x in t[3:3 + int(t[2])]])
 
 
+SIG_R1 = "exchange-swap-breaks-topological-order"
+SIG_R2 = "flagger-negated-alias-called-simple"
+
+
 def oracle(sq, impl_lines):
     """check the property on what the implementation printed. Returns a list of
     (kind, message, op index)."""
@@ -525,6 +540,7 @@ def oracle(sq, impl_lines):
     T = tables(nodes, sg)
     allowed = sg.ALL                 # assignments consistent with the replaced constants so far
     probs = []
+    order_lost = False               # R1: topological order lost by a user exchange earlier in the sequence
     pos = 0
     for k, op in enumerate(sq.ops):
         kind = op[0]
@@ -557,7 +573,7 @@ def oracle(sq, impl_lines):
                                   "topological-order-lost-after-arbitrary-exchange" if arbitrary
                                   else "tree is not topologically sorted after %r" % op, k))
                     if arbitrary:
-                        break
+                        order_lost = True
                 if kind == "d":
                     # volumes keep their truth table (for every assignment); no negated join remains
                     if len(new_vols) != len(vols):
@@ -647,14 +663,21 @@ def oracle(sq, impl_lines):
                         break
             elif kind == "g":
                 nid = int(op.split()[1])
-                if lines[0] == "g 0" and not _negated_alias(nodes, nid):
+                if lines[0] == "g 0":
                     for f in sorted(reach_surfaces(nodes, nid)):
                         if f >= sg.nsurf:
                             continue
                         Tf = tables(nodes, sg.flipped(f))
                         if T[nid] & Tf[nid]:
-                            probs.append(("simple-flag", "node %d is flagged free of internal surfaces but stays true when face %d flips" % (nid, f), k))
+                            # not a conjunction of literals. Known finding R2 only in the narrow case
+                            # that a Negated node pointing at an Aliased node is involved
+                            kind = ("known:" + SIG_R2) if _negated_alias(nodes, nid) else "simple-flag"
+                            probs.append((kind, "node %d is flagged free of internal surfaces but stays true when face %d flips" % (nid, f), k))
                             break
+            if order_lost:
+                # semantic consequences of the lost order are finding R1, not new violations
+                probs = [(("known:" + SIG_R1) if (p[0] not in ("note",) and not p[0].startswith("known:") and p[2] == k) else p[0],
+                          p[1], p[2]) for p in probs]
         except (Bad, AttributeError, ValueError, IndexError, AssertionError, KeyError, TypeError) as e:
             # the implementation printed something that cannot be interpreted for this op
             probs.append(("malformed", "%s: %s after %r" % (type(e).__name__, e, op), k))
@@ -924,7 +947,7 @@ def run(ctx):
                 if line.startswith("@"):
                     wid, line = line.split(" ", 1)
                     tag = "witness:" + wid[1:]
-                sq = gen_corpus_sequence(ctx, model, line)
+                sq = gen_corpus_sequence(ctx, model, line, force=tag.startswith("witness:"))
                 sq.tag = tag
                 seqs.append(sq)
     for i in range(ndeep):
@@ -946,41 +969,58 @@ def run(ctx):
             ctx.case((sq.text(), k), nontrivial=True)
         ctx.count("gen:" + sq.tag)
         if isinstance(impl, tuple):
-            ctx.violation("crash", "the implementation crashed (rc=%s) on a sequence the model accepts" % impl[1],
-                          dict(replay, partial_output=impl[2][-5:]))
-            nviol += 1
+            forced = getattr(sq, "model_stopped", None) is not None
+            ctx.violation("crash", "the implementation crashed (rc=%s) on a sequence the model accepts" % impl[1]
+                          if not forced else "the implementation crashed (rc=%s) after the topological order was lost" % impl[1],
+                          dict(replay, partial_output=impl[2][-5:]),
+                          signature=SIG_R1 if (forced and sq.tag == "witness:R1") else None)
+            if not forced:
+                nviol += 1
             continue
-        expected = [l for ls in sq.exp for l in ls if not l.startswith("q ") and not l.startswith("c ")]
+        stopped = getattr(sq, "model_stopped", None)
+        if stopped is not None:
+            # compare only up to the op on which the model met an assertion site
+            nl = sum(NLINES[o[0]] for o in sq.ops[:stopped])
+            expected = [l for ls in sq.exp[:stopped] for l in ls if not l.startswith("q ") and not l.startswith("c ")]
+            impl_cmp = impl[:nl]
+        else:
+            expected = [l for ls in sq.exp for l in ls if not l.startswith("q ") and not l.startswith("c ")]
+            impl_cmp = impl
         if sq.tag.startswith("witness:"):
             wid = sq.tag.split(":")[1]
             try:
                 if wid == "R1":
-                    nodes_w, _ = parse_tree_line([l for l in impl if l.startswith("t ")][-1])
-                    rep_ok = not topo_sorted(nodes_w)
+                    rep_ok = any(not topo_sorted(parse_tree_line(l)[0]) for l in impl if l.startswith("t "))
                 else:
-                    rep_ok = impl[-1] == "g 0" and impl[-2].startswith("s !all(")
+                    rep_ok = "g 0" in impl and any(l.startswith("s !all(") for l in impl)
             except Exception:
                 rep_ok = False
             ctx.count("witness-%s-%s" % (wid, "reproduced-on-real-code" if rep_ok else "NOT-reproduced"))
             if not rep_ok:
                 ctx.notes.append("refutation witness %s no longer reproduces on the code: the _refuted theorem and NOTES.md need an update" % wid)
         probs = oracle(sq, impl)
-        hard = [p for p in probs if p[0] != "note"]
+        hard = [p for p in probs if p[0] != "note" and not p[0].startswith("known:")]
         for p in probs:
             if p[0] == "note":
                 ctx.count("note:" + p[1])
+            elif p[0].startswith("known:"):
+                sig = p[0][6:]
+                ctx.count("known-finding-hit:" + sig)
+                ctx.violation("finding", p[1], dict(replay, failing_op_index=p[2],
+                                                    failing_op=sq.ops[p[2]] if p[2] < len(sq.ops) else None),
+                              signature=sig)
         if hard and nviol < 6:
             kind, msg, k = hard[0]
             ctx.violation(kind, msg, dict(replay, failing_op_index=k, failing_op=sq.ops[k] if k < len(sq.ops) else None,
                                           all_problems=[p[1] for p in hard[:5]]))
             nviol += 1
-        if impl != expected:
+        if impl_cmp != expected:
             ndis += 1
             if not hard and ndis <= 4:
-                d = next((j for j, (a, b) in enumerate(zip(impl, expected)) if a != b), min(len(impl), len(expected)))
+                d = next((j for j, (a, b) in enumerate(zip(impl_cmp, expected)) if a != b), min(len(impl_cmp), len(expected)))
                 ctx.violation("correspondence", "model and implementation print different records",
                               dict(replay, first_difference=d,
-                                   impl=impl[d] if d < len(impl) else None,
+                                   impl=impl_cmp[d] if d < len(impl_cmp) else None,
                                    model=expected[d] if d < len(expected) else None,
                                    theorem="Properties_C10.v is about a model that no longer matches the code"),
                               no_input=True)
